@@ -27,13 +27,19 @@ pub fn split_rtu_public(d: &[u8]) -> Option<Vec<(u8, Vec<u8>)>> {
 pub fn generate(out: &mut Out, prop: &str, thorough: bool, seed: u64) {
     let mut rng = Rng::new(seed ^ prop_salt(prop));
     match prop {
-        "C01" => client::gen_c01(out, &mut rng, thorough),
+        "C01" => {
+            client::gen_c01(out, &mut rng, thorough);
+            netgen::gen_serial_server(out, &mut rng, if thorough { 100 } else { 8 })
+        }
         "C02" => client::gen_c02(out, &mut rng, thorough),
         "C03" => codec::gen_c03(out, &mut rng, thorough),
         "C04" => stream::gen_c04(out, &mut rng, thorough),
         "C05" => stream::gen_c05(out, &mut rng, thorough),
         "C06" => client::gen_c06(out, &mut rng, thorough),
-        "C07" => server::gen_c07(out, &mut rng, thorough),
+        "C07" => {
+            server::gen_c07(out, &mut rng, thorough);
+            netgen::gen_serial_server(out, &mut rng, if thorough { 200 } else { 12 })
+        }
         "C08" => codec::gen_c08(out, &mut rng, thorough),
         "C09" => codec::gen_c09(out, &mut rng, thorough),
         "C10" => client::gen_c10(out, &mut rng, thorough),
@@ -67,13 +73,19 @@ pub fn monitor_line(out: &mut Out, line: &str) {
     let (l, r) = out.case(line);
     let prop = out.prop.clone();
     match prop.as_str() {
-        "C01" => client::mon_c01(out, &l, &r),
+        "C01" => {
+            client::mon_c01(out, &l, &r);
+            netgen::mon_c18(out, &l, &r)
+        }
         "C02" => client::mon_c02(out, &l, &r),
         "C03" => codec::mon_c03(out, &l, &r),
         "C04" => stream::mon_c04(out, &l, &r),
         "C05" => stream::mon_c05(out, &l, &r),
         "C06" => client::mon_c06(out, &l, &r),
-        "C07" => server::mon_c07(out, &l, &r),
+        "C07" => {
+            server::mon_c07(out, &l, &r);
+            netgen::mon_c18(out, &l, &r)
+        }
         "C08" => codec::mon_c08(out, &l, &r),
         "C09" => codec::mon_c09(out, &l, &r),
         "C10" => client::mon_c10(out, &l, &r),
